@@ -105,8 +105,10 @@ def unpack_attrs(a):
             # an empty dict marks a 0-d DataArray (e.g. the noise_sd that
             # load_average computes for a single-channel image)
             dims = list(attr_ref[attr].keys())
+            # a stored attribute of one element comes back as a scalar
+            shape = [np.size(attr_ref[attr][dim]) for dim in dims]
             new_attrs[attr] = xr.DataArray(
-                a[attr] if dims else np.reshape(a[attr], ()),
+                np.reshape(a[attr], shape),
                 coords=attr_ref[attr],
                 dims=dims)
         elif attr in a:
